@@ -821,6 +821,9 @@ impl<C: Config, Q: Query> Snapshot<C, Q> {
         &mut self,
         clean_edges: Vec<QueryID>,
         new_tfc: Option<Interned<TransitiveFirewallCallees>>,
+        new_observations: Option<
+            HashMap<QueryID, Observation, C::BuildHasher>,
+        >,
         timestamp: Timestamp,
     ) {
         let mut tx = self.engine().new_write_transaction();
@@ -855,6 +858,19 @@ impl<C: Config, Q: Query> Snapshot<C, Q> {
                 .database
                 .node_info
                 .insert(*self.query_id(), node_info, &mut tx)
+                .await;
+        }
+
+        if let Some(observations) = new_observations {
+            self.engine()
+                .computation_graph
+                .database
+                .forward_edge_observation
+                .insert(
+                    *self.query_id(),
+                    ForwardEdgeObservation::<C>(Arc::new(observations)),
+                    &mut tx,
+                )
                 .await;
         }
 
